@@ -7,12 +7,17 @@ export GOFLAGS=-mod=mod GOPROXY=off GOSUMDB=off GOTOOLCHAIN=local
 (cd /repo && go build -tags verif ./... && go test -tags verif -vet=off -count=1 -run '^$' ./... >/dev/null 2>&1 || true)
 python3 -m py_compile check tools/*.py checks/*.py
 mkdir -p evidence replays
+# Parse every specification (informational: a spec that does not parse makes its own check
+# report "inconclusive"; modules that need the TLAPS or Apalache libraries are skipped here).
 if ls spec/*.tla >/dev/null 2>&1; then
   tmp=$(mktemp -d)
   cp spec/*.tla "$tmp"/
+  bad=0
   for f in "$tmp"/*.tla; do
-    (cd "$tmp" && timeout 120 tla-sany "$(basename "$f")" >"$f.sany" 2>&1) || { echo "SANY failed on $f"; tail -20 "$f.sany"; rm -rf "$tmp"; exit 1; }
+    if grep -q "TLAPS\|Apalache\|@type" "$f"; then continue; fi
+    (cd "$tmp" && timeout 120 tla-sany "$(basename "$f")" >"$f.sany" 2>&1) || { echo "WARNING: SANY failed on $(basename "$f")"; tail -5 "$f.sany"; bad=$((bad+1)); }
   done
   rm -rf "$tmp"
+  echo "specs parsed, $bad warning(s)"
 fi
 echo setup ok
